@@ -55,10 +55,11 @@ def inline_body(prog, body, known, depth=0, stack=(), force=None):
             key = key2 if key2 in prog.bodies else None
         if key is None or key in stack or key == prog.key_of(body):
             continue
-        if (key in known) if force is None else (key not in force):
+        synthetic = bool(t.get('synthetic'))        # the closure call of a desugared combinator (desugar.py): always inlined
+        if not synthetic and ((key in known) if force is None else (key not in force)):
             continue
         cb = prog.bodies[key]
-        if cb.kind == 'Closure' or cb.n > MAX_BLOCKS or cb.crate != body.crate:
+        if (cb.kind == 'Closure' and not synthetic) or cb.n > MAX_BLOCKS or cb.crate != body.crate:
             continue
         if len(t['args']) != cb.arg_count or t['dest']['p']:
             continue
@@ -113,6 +114,16 @@ def apply(prog, verif_dir):
     known = set(json.load(open(p)))
     prog.known_functions = known
     n = 0
+    if not os.environ.get('VERIF_NO_DESUGAR'):
+        import desugar
+        for key in list(prog.bodies):
+            b = prog.bodies[key]
+            nj = desugar.desugar_body(prog, b)
+            if nj is not None:
+                nb = Body(nj, b.crate)
+                nb.parent = getattr(b, 'parent', None)
+                prog.bodies[key] = nb
+                n += 1
     for key in list(prog.bodies):
         b = prog.bodies[key]
         if b.kind == 'Closure' and False:
